@@ -51,7 +51,7 @@ const (
 
 func nCases(tier string) int {
 	if tier == "thorough" {
-		return len(fixedCases()) + cycle*5000
+		return len(fixedCases()) + cycle*8000
 	}
 	return len(fixedCases()) + cycle*500
 }
@@ -180,6 +180,7 @@ func execValue(x *fw.Ctx, c Case) {
 		x.Cover("dirty:" + c.Feat)
 	} else {
 		x.Cover("value-clean")
+		x.Cover("avoided:all-avoid-set-constructs")
 	}
 	scope := slip.NewScope()
 	obj, err := evalForms(scope, c.Src)
@@ -343,6 +344,12 @@ func probeAll(scope *slip.Scope, c Case) []string {
 
 func execCode(x *fw.Ctx, c Case) {
 	x.Cover("code:" + c.Kind)
+	if c.Feat != "" {
+		x.Cover("dirty:" + c.Feat)
+	} else {
+		x.Cover("code-clean")
+		x.Cover("avoided:all-avoid-set-constructs")
+	}
 	obs := map[string]any{"src": c.Src}
 	x.Observe(obs)
 	scope := slip.NewScope()
@@ -604,12 +611,19 @@ func exec(x *fw.Ctx, c Case) {
 func init() {
 	fw.Register(fw.Spec[Case]{
 		ID: "C19",
-		Rule: "a fixed block of hand-written cases (one per load-formable kind and per avoid-set construct), then seeded cases in the ratio " +
-			"10 data objects (number, string, symbol, character, list, vector, array, hash table) : 6 code objects (defun, defmacro, lambda, " +
-			"compiled call built by a typed generator over every pretty-printer layout) : 2 definitions (package, flavor, flavor instance, class, " +
-			"class instance, generic function, each reloaded in a fresh process) : 2 sessions (5-25 definitions -> snapshot -> fresh process -> load " +
-			"-> snapshot), each at margins drawn from 20..120; distinct = distinct case JSON; non-trivial = slip accepted the original definition. " +
-			"About one case in seven carries exactly one avoid-set construct (feat=...), the others carry none",
+		Rule: "a fixed, seed-independent block of ~550 cases (hand-written examples of every load-formable kind; for every avoid-set construct 3-4 generated cases, " +
+			"the first of them holding nothing but the construct), then seeded cases in the ratio 10 data objects (number, string, symbol, character, list, " +
+			"vector, array, hash table) : 6 code objects (defun, defmacro, lambda, compiled call, from a typed generator of pure code that reaches every " +
+			"pretty-printer layout) : 2 definitions (package, flavor, flavor instance, class, class instance, generic function with methods; reloaded from " +
+			"their load form text in a fresh process) : 2 sessions (5-25 defvar/defparameter/defconstant/defun/defmacro/defflavor(+instance)/defgeneric+" +
+			"defmethod/defpackage/setq-of-a-standard-variable items -> snapshot -> fresh process -> load -> snapshot -> probes), each at margins drawn from " +
+			"20..120; distinct = distinct case JSON; non-trivial = slip accepted the original definition. About one case in six carries exactly one " +
+			"avoid-set construct (feat=...; counters dirty:<construct>), all others avoid all of them: plain symbols as data, symbols/lists as hash " +
+			"values, non symbol/string/number hash keys, several hash entries in a snapshot, fill pointers, empty vectors, array attributes in snapshots, " +
+			"long floats with inexact decimal digits, backquote templates, documentation that wraps (sessions), unspecialized method parameters, slot " +
+			"accessors in class load forms, quoted flavor defaults, list/symbol slot values of instances, flavor parents, more than one flavor or a proper " +
+			"inittable subset per session, flavor methods and classes in sessions, variables/functions/exports of user packages in sessions, undefined " +
+			"callees, a failed send before a snapshot, the unlocked swank package",
 		N:        nCases,
 		Gen:      gen,
 		Exec:     exec,
